@@ -118,7 +118,8 @@ def _items(g, init, paths, version):
 def _step_devs(lab, st):
     devs = set(lab.get("dev") or [])
     if not st["s"]["broken"]:
-        devs |= {d for d in (table_deviation(t) for t in st["tables"].values()) if d}
+        known = st.get("devs")
+        devs |= {d for d in (table_deviation(t, known) for t in st["tables"].values()) if d}
     return devs
 
 
